@@ -49,7 +49,7 @@ void Ctx::run_clients(const std::function<void(int)>& begin, const std::function
         ts.emplace_back([this, i, &begin, &op, &end] {
             int after = prog->threads[i].start_after;
             if (after >= 0 && after < i) dsim::wait_thread_finished(client_tid[after]);
-            dsim::mark_client(true);
+            dsim::mark_client(true, i);
             dsim::set_op(-5); begin(i);
             for (const Op& o : prog->threads[i].ops) op(i, o);
             dsim::set_op(-6); end(i);
